@@ -346,7 +346,7 @@ func monC14(o *TypeOps, c Config, r *Rep) {
 		}
 		return false
 	}
-	lists := testLists(g, o.T, poolv, tierPick(c, 26, 100), nil)
+	lists := testLists(g, o.T, poolv, tierPick(c, 26, 60), nil)
 	comparable := o.T.Comparable() && pointerFree(o.T)
 	for li, vals := range lists {
 		for _, nilList := range []bool{false, true} {
